@@ -69,7 +69,8 @@ def run_history(spec, y_full, n0, steps, case, shift=0):
             break
         yb = y_full.iloc[pos: pos + k]
         pos += k
-        u = sut(f.update, yb.copy())
+        upar = case.get("update_params", [True])[j % len(case.get("update_params", [True]))]
+        u = sut(f.update, yb.copy(), None, upar)
         if isinstance(u, Raised):
             discs.append(D("update_raised:%s@%s" % (u.type, u.where), "%s update %d: %s" % (pools.describe(spec), j, u.msg)))
             break
@@ -176,6 +177,7 @@ def cases(draw, depth=2, cheap=False):
         "fh_when": draw(st.sampled_from(["fit", "predict"])),
         "fh_kind": draw(st.sampled_from(["list", "array", "fh", "int"])),
         "repeat_fh": draw(st.booleans()),
+        "update_params": draw(st.lists(st.sampled_from([True, True, False]), min_size=1, max_size=3)),
         "shift": draw(st.sampled_from([1, -1, 7, -13, 100, -(start + n - 1) if start + n - 1 != 0 else 5])),
     }
 
